@@ -4,7 +4,8 @@
    point indices; firstn/skipn are the mathematical prefix/suffix. *)
 From Coq Require Import ZArith List Bool.
 From PTK Require Import Lib.Sx Lib.Py Model.Document Model.BufferEdit Proofs.BufferEditFacts
-  Proofs.BufferEditLines Proofs.BufferEditIndent.
+  Proofs.BufferEditLines Proofs.BufferEditIndent Model.C02_DocQueries Model.C01_CaseWord
+  Proofs.C01_CaseWordFacts.
 Import ListNotations.
 Open Scope Z_scope.
 
@@ -151,6 +152,42 @@ Theorem C01_unindent_text : forall b a e c b' r,
   btext b' = transform_lines (unindent_line (str_mul INDENT c)) (btext b) a e.
 Proof. exact unindent_text. Qed.
 Print Assumptions C01_unindent_text.
+
+(* Case transforms (uppercase-word, downcase-word, capitalize-word): one
+   application replaces a span of n characters directly after the cursor by its
+   image under the case map F and puts the cursor behind it; nothing else
+   changes - for every F (length-changing maps included), wherever line
+   endings are.  (At the pinned commit the command used overwrite-mode insert
+   and duplicated the next line's word at the end of a line: finding repaired
+   in /repo, see C01_case_word_pinned_refuted.) *)
+Theorem C01_case_word : forall F b,
+  Inv b ->
+  exists n,
+    0 <= n <= len (btext b) - bcur b /\
+    let before := firstn (Z.to_nat (bcur b)) (btext b) in
+    let after := skipn (Z.to_nat (bcur b)) (btext b) in
+    case_word1 F b =
+    Ok (mkbuf (before ++ F (firstn (Z.to_nat n) after) ++ skipn (Z.to_nat n) after)
+              (bcur b + len (F (firstn (Z.to_nat n) after)))) [].
+Proof. exact case_word1_spec. Qed.
+Print Assumptions C01_case_word.
+
+Theorem C01_case_word_pinned_refuted :
+  exists b, Inv b /\
+    case_word1_pinned (case_F 0) b = Ok (mkbuf [97; 10; 66; 10; 98] 3) [] /\
+    btext b = [97; 10; 98].
+Proof. exact case_word1_pinned_refuted. Qed.
+Print Assumptions C01_case_word_pinned_refuted.
+
+(* The invariant for the extended operation set (BufferEdit's operations plus
+   the case commands with any repeat count) and every finite sequence. *)
+Theorem C01_xstep_inv : forall b x, Inv b -> Inv (res_buf (xstep b x)).
+Proof. exact xstep_inv. Qed.
+Print Assumptions C01_xstep_inv.
+
+Theorem C01_xhistory_inv : forall ops b, Inv b -> Inv (xsteps b ops).
+Proof. exact xsteps_inv. Qed.
+Print Assumptions C01_xhistory_inv.
 
 (* After every edit - any operation of the model, any arguments (negative and
    oversized counts included), exceptions included - the cursor is within
